@@ -75,7 +75,7 @@ REQUIRED = dict(
              'multinest:multimodal-1-mode', 'multinest:multimodal-2-modes-equal', 'multinest:multimodal-2-modes-ragged',
              'polychord:cluster-1', 'polychord:cluster-2-equal', 'polychord:cluster-off',
              'N:1', 'N:2', 'N:3', 'N:10', 'N:200', 'weights:equal', 'weights:dominant', 'weights:zeros', 'weights:ties',
-             'weights:descending', 'values:distinct', 'values:tied', 'derived:none', 'derived:mu', 'derived:mu,logg,avg_T',
+             'weights:descending', 'weights:runner-up-a-hair-lighter', 'values:distinct', 'values:tied', 'derived:none', 'derived:mu', 'derived:mu,logg,avg_T',
              'D:1', 'D:5', 'quantile:exact', 'quantile:bracket'])
 SAMPLERS = ['nestle', 'multinest', 'polychord']
 _rec = {}
@@ -145,6 +145,12 @@ def draw_weights(rng, n, kind):
         w = rng.choice([0.5, 1.0, 2.0], n)
     elif kind == 'descending':
         w = np.sort(rng.uniform(0.0, 1.0, n))[::-1].copy() if rng.random() < 0.5 else 0.7 ** np.arange(n)
+    elif kind == 'runner-up-a-hair-lighter' and n >= 2:
+        # a long run: the second-heaviest sample is lighter than the heaviest by a few parts per billion (NOT a tie)
+        w = rng.uniform(0.0, 1.0, n) ** 3
+        i = int(np.argmax(w))
+        j = int(rng.choice([k for k in range(n) if k != i]))
+        w[j] = w[i] * (1.0 - 10 ** rng.uniform(-9, -6))
     else:
         w = rng.uniform(0.0, 1.0, n) ** 3
     if kind != 'ties' and rng.random() < 0.7:
@@ -275,7 +281,7 @@ def wl_posterior(ctx, rng, rounds=1):
             N += 1
         if layout_kind.endswith('ragged') and N < 3:
             N = 3
-        wkind = ['equal', 'dominant', 'zeros', 'ties', 'descending', 'random'][int(rng.integers(0, 6))]
+        wkind = ['equal', 'dominant', 'zeros', 'ties', 'descending', 'random', 'runner-up-a-hair-lighter'][int(rng.integers(0, 7))]
         tied = bool(rng.random() < 0.3)
         x = draw_samples(rng, decls, N, tied)
         w = draw_weights(rng, N, wkind)
